@@ -18,15 +18,20 @@
     * freedom from data races / shared mutable state under concurrent use is a property of the Go
       runtime execution that no Gallina model exhibits; it is covered by the harness only
       (goroutines + a -race build, see notes/C20.md);
-    * [..._partial] theorems carry a premise about a function that is not modelled (the memoising
-      DFS of schemahcl's evalReferences, forEachBlocks, the bucket effect of QualifyObjects);
-    * [C20_decl_order_partial] covers DetachCycles only, under the premise that both orders agree
-      on cyclicity; that SortChanges emits a permutation respecting dependsOn is C04's theorem, and
+    * [..._partial] theorems carry a premise about a function that is not modelled (the bucket
+      effect of QualifyObjects); evalReferences is proved on a model of its closure [visit] under
+      a locality premise on the (unmodelled) HCL expression evaluator; that the error STATUS is
+      also independent of the order in which edges() lists references is not proved (the value is);
+    * the models of State.EvalOptions, Resource.as and registry.lookup follow the tree WITH the
+      three fixes notes/fixes/C20-hcl-*.diff (before them each had a _refuted/_except pair);
+    * [C20_decl_order_partial] covers the DetachCycles stage only (no premise: sortMap's cycle
+      detection is proved order-independent); that SortChanges emits a permutation respecting
+      dependsOn is C04's theorem, and
       "the resulting schema is the same" is checked on the real SQLite engine by the harness. *)
-From Coq Require Import List Bool Arith NArith Permutation String.
+From Coq Require Import List Bool Arith NArith Permutation String Relations.
 From Coq Require Sorting.Sorted.
 From Atlas Require Import Base.Bytes Plan.SortModel Dir.DirModel.
-From Atlas Require Import Det.Census Det.OrderModel Det.OrderIndep Det.CensusCovered gen.Gen_MapRanges.
+From Atlas Require Import Det.Census Det.OrderModel Det.OrderIndep Det.SortMapCycle Det.EvalRefs Det.CensusCovered gen.Gen_MapRanges.
 Import ListNotations.
 
 (** * Census *)
@@ -143,21 +148,43 @@ Proof. vm_compute. reflexivity. Qed.
 
 (** * schemahcl/context.go *)
 
-(* PARTIAL: [visit] (memoising DFS + cycle detection + expression evaluation) is not modelled;
-   premise: visiting two nodes in either order fails in both orders or reaches the same context.
-   Full statement: the premise holds of the real closure for every graph of locals/data blocks. *)
-Theorem C20_map_order_irrelevant_evalReferences_partial :
-  forall (Ctx Node : Type) (referenced : Node -> bool) (visit : Ctx -> Node -> option Ctx),
-  (forall a b c, bindo (visit c a) (fun c' => visit c' b) = bindo (visit c b) (fun c' => visit c' a)) ->
-  forall nodes nodes' : list (bytes * Node), Permutation nodes nodes' ->
-  forall c, evalReferences_nodes Ctx Node referenced visit nodes c = evalReferences_nodes Ctx Node referenced visit nodes' c.
-Proof. exact evalReferences_nodes_perm_partial. Qed.
-Print Assumptions C20_map_order_irrelevant_evalReferences_partial.
-(* a visit that satisfies the premise: mark the node, fail on node 0 *)
+(* State.evalReferences with its closure [visit] modelled (DFS with cycle detection through
+   [progress]; [visited] is never written in the Go code, so nothing is memoised).  For every
+   order of the map [nodes] the loop fails in both orders or leaves the same context.
+   Premise about the HCL expression evaluator, which is not modelled: the value of a node's
+   expression depends only on the context entries of the addresses it refers to. *)
+Theorem C20_map_order_irrelevant_evalReferences :
+  forall (Val : Type) (valueOf : nat -> ectx Val -> option Val) (referenced : nat -> bool) (T : deps_t),
+  (forall n c c', (forall e, In e (edges_of T n) -> mget Val e c = mget Val e c') -> valueOf n c = valueOf n c') ->
+  forall (l l' : list (nat * list nat)) (c : ectx Val),
+  Permutation l l' -> incl (map fst l) (map fst T) -> msorted Val c ->
+  evalReferences_loop Val valueOf T referenced l c = evalReferences_loop Val valueOf T referenced l' c.
+Proof. exact evalReferences_loop_perm. Qed.
+Print Assumptions C20_map_order_irrelevant_evalReferences.
+(* 1 -> 2 -> 3, 4 -> 3; value = 1 + sum of the values referred to; node 5 refers to itself *)
 Example C20_evalReferences_ex :
-  let visit (c : list nat) (n : nat) := if n =? 0 then None else Some (if existsb (Nat.eqb n) c then c else insert_by (fun x => x) Nat.ltb n c) in
-  evalReferences_nodes (list nat) nat (fun _ => true) visit [([97%N], 2); ([98%N], 1)] [] = Some [1; 2]
-  /\ evalReferences_nodes (list nat) nat (fun _ => true) visit [([98%N], 1); ([97%N], 2)] [] = Some [1; 2].
+  let T := [(1, [2]); (2, [3]); (3, []); (4, [3; 9])] in
+  let valueOf n (c : ectx nat) := Some (S (fold_left (fun s e => s + match mget nat e c with Some v => v | None => 0 end) (edges_of T n) 0)) in
+  evalReferences_loop nat valueOf T (fun _ => true) [(4, [3; 9]); (1, [2]); (3, []); (2, [3])] [] = EOk nat [(1, 3); (2, 2); (3, 1); (4, 2)]
+  /\ evalReferences_loop nat valueOf T (fun _ => true) T [] = EOk nat [(1, 3); (2, 2); (3, 1); (4, 2)]
+  /\ evalReferences_loop nat valueOf [(5, [5])] (fun _ => true) [(5, [5])] [] = EErr nat.
+Proof. vm_compute. repeat split; reflexivity. Qed.
+
+(* edges() of data/typed blocks is bodyVars, itself a map order: the VALUE a node receives is the
+   same whatever order the references are listed in (two edge tables with the same references) *)
+Theorem C20_map_order_irrelevant_evalReferences_edge_order :
+  forall (Val : Type) (valueOf : nat -> ectx Val -> option Val) (T T' : deps_t),
+  (forall a, In a (map fst T) <-> In a (map fst T')) ->
+  (forall n e, In e (deps_get n T) <-> In e (deps_get n T')) ->
+  (forall n c c', (forall e, In e (edges_of T n) -> mget Val e c = mget Val e c') -> valueOf n c = valueOf n c') ->
+  forall f k p a v, trace Val valueOf T f k p = TOk Val (a ++ [(k, v)]) ->
+  forall f' p' a' v', trace Val valueOf T' f' k p' = TOk Val (a' ++ [(k, v')]) -> v = v'.
+Proof. exact value_det. Qed.
+Print Assumptions C20_map_order_irrelevant_evalReferences_edge_order.
+Example C20_evalReferences_edge_order_ex :
+  let valueOf n (c : ectx nat) := Some (S (match mget nat 2 c with Some v => v | None => 0 end + match mget nat 3 c with Some v => v | None => 0 end)) in
+  trace nat valueOf [(1, [2; 3]); (2, []); (3, [])] 4 1 [] = TOk nat ([(2, 1); (3, 1)] ++ [(1, 3)])
+  /\ trace nat valueOf [(1, [3; 2]); (2, []); (3, [])] 4 1 [] = TOk nat ([(3, 1); (2, 1)] ++ [(1, 3)]).
 Proof. vm_compute. split; reflexivity. Qed.
 
 Theorem C20_map_order_irrelevant_blockVars :
@@ -179,7 +206,7 @@ Theorem C20_map_order_irrelevant_bodyVars_refuted :
 Proof. exact bodyVars_order_leaks. Qed.
 Print Assumptions C20_map_order_irrelevant_bodyVars_refuted.
 (* ... it is the same up to permutation; its only consumer is the edge loop of [visit]
-   (C20_map_order_irrelevant_evalReferences_partial) *)
+   (C20_map_order_irrelevant_evalReferences, _edge_order) *)
 Theorem C20_map_order_irrelevant_bodyVars_except : forall (T : Type) (attrs attrs' : list (bytes * list T)),
   Permutation attrs attrs' -> Permutation (bodyVars attrs) (bodyVars attrs').
 Proof. exact @bodyVars_perm. Qed.
@@ -199,37 +226,20 @@ Proof. vm_compute. split; reflexivity. Qed.
 
 (** * schemahcl/schemahcl.go *)
 
-(* reproduced on the real code: known finding C20-multifile-locals *)
-Theorem C20_map_order_irrelevant_EvalOptions_files_refuted :
-  exists files files' : list hclfile,
-    Permutation files files' /\ NoDup (map fst files) /\ EvalOptions_files files <> EvalOptions_files files'.
-Proof. exact EvalOptions_files_order_matters. Qed.
-Print Assumptions C20_map_order_irrelevant_EvalOptions_files_refuted.
-Theorem C20_map_order_irrelevant_EvalOptions_files_except : forall files files' : list hclfile,
+(* State.EvalOptions after fix C20-hcl-multifile-locals (files are visited in the order of their
+   sorted names; before the fix the faithful model depended on the map order: whether a local
+   referring to a local of another file resolved was random).  What remains is deterministic: it
+   resolves iff the defining file has the smaller name. *)
+Theorem C20_map_order_irrelevant_EvalOptions_files : forall files files' : list hclfile,
   Permutation files files' -> NoDup (map fst files) ->
-  Forall (fun f : hclfile => snd (snd f) = []) files ->
   EvalOptions_files files = EvalOptions_files files'.
-Proof. exact EvalOptions_files_perm_except. Qed.
-Print Assumptions C20_map_order_irrelevant_EvalOptions_files_except.
+Proof. exact EvalOptions_files_perm. Qed.
+Print Assumptions C20_map_order_irrelevant_EvalOptions_files.
 Example C20_EvalOptions_files_ex :
-  EvalOptions_files [(ex_b, ([ex_y], [])); (ex_a, ([ex_x], []))] = Some [ex_a; ex_b]
+  EvalOptions_files [(ex_b, ([ex_y], [ex_x])); (ex_a, ([ex_x], []))] = Some [ex_a; ex_b]
   /\ EvalOptions_files [(ex_a, ([ex_x], [])); (ex_b, ([ex_y], [ex_x]))] = Some [ex_a; ex_b]
-  /\ EvalOptions_files [(ex_b, ([ex_y], [ex_x])); (ex_a, ([ex_x], []))] = None.
+  /\ EvalOptions_files [(ex_a, ([ex_y], [ex_x])); (ex_b, ([ex_x], []))] = None.
 Proof. vm_compute. repeat split; reflexivity. Qed.
-
-(* PARTIAL: forEachBlocks + the registration of the generated blocks are not modelled; premise:
-   the per-file steps of two different files commute *)
-Theorem C20_map_order_irrelevant_EvalOptions_metaBlocks_partial :
-  forall (Ctx Node : Type) (forEachFile : Ctx -> bytes * Node -> option Ctx),
-  (forall a b c, fst a <> fst b ->
-     bindo (forEachFile c a) (fun c' => forEachFile c' b) = bindo (forEachFile c b) (fun c' => forEachFile c' a)) ->
-  forall m m' : list (bytes * Node), Permutation m m' -> NoDup (map fst m) ->
-  forall c, EvalOptions_metaBlocks Ctx Node forEachFile m c = EvalOptions_metaBlocks Ctx Node forEachFile m' c.
-Proof. exact EvalOptions_metaBlocks_perm_partial. Qed.
-Print Assumptions C20_map_order_irrelevant_EvalOptions_metaBlocks_partial.
-Example C20_EvalOptions_metaBlocks_ex :
-  EvalOptions_metaBlocks nat nat (fun c e => Some (c + snd e)) [([97%N], 1); ([98%N], 2)] 0 = Some 3.
-Proof. vm_compute. reflexivity. Qed.
 
 Theorem C20_map_order_irrelevant_copyBlock :
   forall (Node Val : Type) (blockVal : bytes -> Node -> option Val) (attrs attrs' : list (bytes * Node)),
@@ -255,44 +265,26 @@ Proof. vm_compute. split; reflexivity. Qed.
 
 (** * schemahcl/extension.go *)
 
-(* reproduced on the real code: known finding C20-remain-order *)
-Theorem C20_map_order_irrelevant_Resource_as_attrs_refuted :
-  exists l l' : list (bytes * nat),
-    Permutation l l' /\ NoDup (map fst l) /\ as_extra_attrs l [] <> as_extra_attrs l' [].
-Proof. exact as_extra_attrs_order_leaks. Qed.
-Print Assumptions C20_map_order_irrelevant_Resource_as_attrs_refuted.
-(* exact characterisation: the remainder is the iteration order verbatim, hence the same set of
-   attributes and, once sorted by name, the same list *)
-Theorem C20_map_order_irrelevant_Resource_as_attrs_except : forall (V : Type) (l l' extra : list (bytes * V)),
-  Permutation l l' -> NoDup (map fst (extra ++ l)) ->
-  as_extra_attrs l extra = extra ++ l
-  /\ Permutation (as_extra_attrs l extra) (as_extra_attrs l' extra)
-  /\ byKeys (as_extra_attrs l extra) = byKeys (as_extra_attrs l' extra).
-Proof.
-  exact (fun V l l' extra P H =>
-    conj (as_extra_attrs_is_iteration_order l extra H) (as_extra_attrs_perm_except l l' extra P H)).
-Qed.
-Print Assumptions C20_map_order_irrelevant_Resource_as_attrs_except.
+(* Resource.as after fix C20-hcl-remain-order: the remainder keeps the order of r.Attrs /
+   r.Children; the maps existingAttrs / existingChildren are only looked up (and deleted from) *)
+Theorem C20_map_order_irrelevant_Resource_as_attrs :
+  forall (V : Type) (rattrs : list (bytes * V)) (ex ex' : list bytes) (extra : list (bytes * V)),
+  Permutation ex ex' -> as_extra_attrs rattrs ex extra = as_extra_attrs rattrs ex' extra.
+Proof. exact @as_extra_attrs_perm. Qed.
+Print Assumptions C20_map_order_irrelevant_Resource_as_attrs.
 Example C20_Resource_as_attrs_ex :
-  as_extra_attrs [(ex_b, 2); (ex_a, 1)] [(ex_x, 0)] = [(ex_x, 0); (ex_b, 2); (ex_a, 1)]
-  /\ as_extra_attrs [(ex_b, 2); (ex_x, 9)] [(ex_x, 0)] = [(ex_x, 9); (ex_b, 2)].
+  as_extra_attrs [(ex_a, 1); (ex_b, 2); (ex_y, 3); (ex_b, 4)] [ex_y; ex_b] [(ex_x, 0)] = [(ex_x, 0); (ex_b, 2); (ex_y, 3)]
+  /\ as_extra_attrs [(ex_a, 1); (ex_b, 2); (ex_y, 3); (ex_b, 4)] [ex_b; ex_y] [(ex_x, 0)] = [(ex_x, 0); (ex_b, 2); (ex_y, 3)].
 Proof. vm_compute. split; reflexivity. Qed.
 
-Theorem C20_map_order_irrelevant_Resource_as_children_refuted :
-  exists (children : list bytes) (l l' : list (bytes * unit)),
-    Permutation l l' /\ NoDup (map fst l) /\
-    as_extra_children (fun c => c) children l [] <> as_extra_children (fun c => c) children l' [].
-Proof. exact as_extra_children_order_leaks. Qed.
-Print Assumptions C20_map_order_irrelevant_Resource_as_children_refuted.
-Theorem C20_map_order_irrelevant_Resource_as_children_except :
-  forall (C : Type) (ctype : C -> bytes) (children : list C) (l l' : list (bytes * unit)) (extra : list C),
-  Permutation l l' ->
-  Permutation (as_extra_children ctype children l extra) (as_extra_children ctype children l' extra).
-Proof. exact @as_extra_children_perm_except. Qed.
-Print Assumptions C20_map_order_irrelevant_Resource_as_children_except.
+Theorem C20_map_order_irrelevant_Resource_as_children :
+  forall (C : Type) (ctype : C -> bytes) (children : list C) (ex ex' : list bytes) (extra : list C),
+  Permutation ex ex' -> as_extra_children ctype children ex extra = as_extra_children ctype children ex' extra.
+Proof. exact @as_extra_children_perm. Qed.
+Print Assumptions C20_map_order_irrelevant_Resource_as_children.
 Example C20_Resource_as_children_ex :
-  as_extra_children (fun c => fst c) [(ex_a, 1); (ex_b, 2); (ex_a, 3)] [(ex_b, tt); (ex_a, tt)] []
-  = [(ex_b, 2); (ex_a, 1); (ex_a, 3)].
+  as_extra_children (fun c => fst c) [(ex_a, 1); (ex_b, 2); (ex_x, 9); (ex_a, 3)] [ex_b; ex_a] []
+  = [(ex_a, 1); (ex_b, 2); (ex_a, 3)].
 Proof. vm_compute. reflexivity. Qed.
 
 Theorem C20_map_order_irrelevant_implementers :
@@ -306,21 +298,18 @@ Example C20_implementers_ex :
   = [(ex_b, 2); (ex_a, 3)].
 Proof. vm_compute. reflexivity. Qed.
 
-(* reproduced on the real code (Resource.Scan of a *sqlspec.View): known finding C20-scan-type *)
-Theorem C20_map_order_irrelevant_lookup_refuted :
-  exists r r' : list (bytes * nat),
-    Permutation r r' /\ NoDup (map fst r) /\ lookup (Nat.eqb 7) r <> lookup (Nat.eqb 7) r'.
-Proof. exact lookup_order_matters. Qed.
-Print Assumptions C20_map_order_irrelevant_lookup_refuted.
-Theorem C20_map_order_irrelevant_lookup_except : forall (T : Type) (same : T -> bool) (r r' : list (bytes * T)),
-  Permutation r r' ->
-  (forall a b, In a r -> In b r -> same (snd a) = true -> same (snd b) = true -> a = b) ->
-  lookup same r = lookup same r'.
-Proof. exact @lookup_perm_except. Qed.
-Print Assumptions C20_map_order_irrelevant_lookup_except.
+(* registry.lookup after fix C20-hcl-scan-type: first name in REGISTRATION order whose entry has
+   the same Go type ("view" before "materialized", "function" before "procedure") *)
+Theorem C20_map_order_irrelevant_lookup :
+  forall (T : Type) (same : T -> bool) (names : list bytes) (r r' : list (bytes * T)),
+  Permutation r r' -> NoDup (map fst r) -> lookup same names r = lookup same names r'.
+Proof. exact @lookup_perm. Qed.
+Print Assumptions C20_map_order_irrelevant_lookup.
 Example C20_lookup_ex :
-  lookup (Nat.eqb 7) [(ex_a, 1); (ex_b, 7); (ex_x, 3)] = Some ex_b /\ lookup (Nat.eqb 9) [(ex_a, 1)] = None.
-Proof. vm_compute. split; reflexivity. Qed.
+  lookup (Nat.eqb 7) [ex_a; ex_b; ex_x] [(ex_x, 3); (ex_b, 7); (ex_a, 7)] = Some ex_a
+  /\ lookup (Nat.eqb 7) [ex_a; ex_b; ex_x] [(ex_a, 7); (ex_x, 3); (ex_b, 7)] = Some ex_a
+  /\ lookup (Nat.eqb 9) [ex_a] [(ex_a, 1)] = None.
+Proof. vm_compute. repeat split; reflexivity. Qed.
 
 (** * sql/internal/specutil *)
 
@@ -386,19 +375,34 @@ Proof. vm_compute. split; reflexivity. Qed.
 
 (** * Declaration order *)
 
+(* sortMap's DFS: never out of fuel, and whether it reports a cycle depends only on the SET of
+   foreign-key edges, which is the same for every order of the change set *)
+Theorem C20_decl_order_cycle_detection : forall cs cs' : list change,
+  Permutation cs cs' ->
+  sortMap cs <> SMOut /\ (sortMap cs = SMCycle <-> sortMap cs' = SMCycle)
+  /\ (sortMap cs = SMCycle <-> exists a, clos_trans nat (edge (dependencies cs)) a a).
+Proof.
+  exact (fun cs cs' P => conj (sortMap_never_out cs) (conj (sortMap_cycle_perm cs cs' P) (sortMap_cycle_iff cs))).
+Qed.
+Print Assumptions C20_decl_order_cycle_detection.
+Example C20_decl_order_cycle_ex :
+  let t n := mkT n n in
+  let a := AddTable (t 1) [mkFK 0 (t 1) (t 2)] in
+  let b := AddTable (t 2) [mkFK 1 (t 2) (t 1)] in
+  sortMap [a; b] = SMCycle /\ sortMap [b; a] = SMCycle /\ sortMap [a; AddTable (t 2) []] = SMOk [2; 1].
+Proof. vm_compute. repeat split; reflexivity. Qed.
+
 (* PARTIAL.  Full statement: for every permutation cs' of the change set cs (= the tables declared
    in another order), plan cs' is a permutation of plan cs in which every pair related by
    dependsOn keeps its relative order, and replaying both on the engine gives the same schema.
-   Proved: the DetachCycles stage maps a permuted change set to a permuted result -- the same
-   changes, none lost, none altered -- provided both orders agree on whether the FK graph is cyclic.
-   Missing: that premise (order-independence of sortMap's cycle detection), and the SortChanges
-   stage (C04: a permutation that respects dependsOn).  The harness checks the full statement on
-   the real planners and the real SQLite engine. *)
-Theorem C20_decl_order_partial : forall (cs cs' p p' : list change),
+   Proved (no premise): the DetachCycles stage never runs out of fuel and maps a permuted change
+   set to a permuted result -- the same changes, none lost, none altered.
+   Missing: the SortChanges stage (C04: a permutation that respects dependsOn).  The harness checks
+   the full statement on the real planners and the real SQLite engine. *)
+Theorem C20_decl_order_partial : forall cs cs' : list change,
   Permutation cs cs' ->
-  (sortMap cs = SMCycle <-> sortMap cs' = SMCycle) ->
-  DetachCycles cs = DCOk p -> DetachCycles cs' = DCOk p' -> Permutation p p'.
-Proof. exact DetachCycles_decl_order. Qed.
+  exists p p', DetachCycles cs = DCOk p /\ DetachCycles cs' = DCOk p' /\ Permutation p p'.
+Proof. exact DetachCycles_decl_order_full. Qed.
 Print Assumptions C20_decl_order_partial.
 Example C20_decl_order_ex :
   let t n := mkT n n in
